@@ -127,9 +127,11 @@ func recursionGuards(r *Run, rule string, frag []*ssa.Function, minCycles int) {
 			continue
 		}
 		found := ""
+		maxStep := int64(0)
 		assign := make([]int, len(comp))
 		var try func(i int) bool
 		check := func() (bool, string) {
+			maxStep = 0
 			d := map[*ssa.Function]int{}
 			for i, f := range comp {
 				d[f] = intParams[i][assign[i]]
@@ -151,6 +153,9 @@ func recursionGuards(r *Run, rule string, frag []*ssa.Function, minCycles int) {
 				}
 				if diff.K >= 1 {
 					inc[ei] = true
+				}
+				if diff.K > maxStep {
+					maxStep = diff.K
 				}
 			}
 			// guards: the depth passed at every intra-cycle call site of f is bounded by a constant
@@ -262,6 +267,7 @@ func recursionGuards(r *Run, rule string, frag []*ssa.Function, minCycles int) {
 		}
 		if try(0) {
 			r.OK(rule, construct, comp[0].Pos(), "depth parameter increases round the cycle and is bounded where it is passed on: %s", found)
+			r.Check(maxStep == 1, rule, construct+": depth grows by exactly one per nesting level", comp[0].Pos(), "+1", fmt.Sprintf("a call passes depth+%d: the nesting limit that inputs actually meet is lower than the documented one, so items nested up to the limit are refused", maxStep))
 		} else {
 			r.Fail(rule, construct, comp[0].Pos(), "no parameter both increases round this cycle and is bounded by a constant before the recursive call: the recursion depth is controlled by the input (stack exhaustion is a fatal, unrecoverable error)")
 		}
